@@ -53,6 +53,9 @@ class Ctx:
 
     def sample(self, s, cap=6):
         if len(self.cov["samples"]) < cap:
+            txt = json.dumps(s, sort_keys=True)
+            if len(txt) > 1500:
+                s = txt[:1500] + "...(truncated)"
             self.cov["samples"].append(s)
 
     def note(self, s):
@@ -327,11 +330,13 @@ def write_ndjson(path, recs):
 # --------------------------------------------------------------------------- known findings
 
 def load_known():
+    """known_findings.json (committed; never written at run time)."""
+    out = []
     p = os.path.join(VERIF, "known_findings.json")
-    if not os.path.exists(p):
-        return []
-    with open(p) as fh:
-        return json.load(fh).get("findings", [])
+    if os.path.exists(p):
+        with open(p) as fh:
+            out += json.load(fh).get("findings", [])
+    return out
 
 
 def _subset(pat, rec):
@@ -395,8 +400,12 @@ def finish(ctx):
         "wall_s": round(time.time() - ctx.t0, 2),
         "violations": len(real),
     }
-    os.makedirs(os.path.join(VERIF, "evidence"), exist_ok=True)
-    with open(os.path.join(VERIF, "evidence", ctx.prop + ".json"), "w") as fh:
+    evdir = os.path.join(VERIF, "evidence")
+    if os.path.realpath(REPO) != "/repo":
+        # runs against a scratch worktree (mutant validation) never overwrite the real evidence
+        evdir = os.path.join(VERIF, ".work", "evidence-alt")
+    os.makedirs(evdir, exist_ok=True)
+    with open(os.path.join(evdir, ctx.prop + ".json"), "w") as fh:
         json.dump(ev, fh, indent=1, sort_keys=True)
         fh.write("\n")
     if not ctx.keep_work:
